@@ -72,6 +72,8 @@ type apiEnv struct {
 	oplFile string
 	curOPL  string
 	nOPL    int
+	// requests carry the environment's context (the tenant of a multi-tenant registry)
+	withReqCtx bool
 }
 
 func newAPIEnv(t testing.TB, opl string) *apiEnv {
@@ -126,6 +128,9 @@ func (e *apiEnv) do(h http.Handler, method, target string, body []byte) (code in
 		rd = bytes.NewReader(nil)
 	}
 	req := httptest.NewRequest(method, target, rd)
+	if e.withReqCtx {
+		req = req.WithContext(e.ctx)
+	}
 	if body != nil {
 		req.Header.Set("Content-Type", "application/json")
 	}
